@@ -2,8 +2,9 @@
 adapters, a fixed stager, a trace function and a progress-bar class.  Everything is
 module-level so that the standard-library pickle can ship it to worker processes.
 
-Events are appended (one JSON line each, with pid and a per-process sequence number) to
-`$MBV_EVENT_DIR/<pid>.ndjson`; per-process order is exact, cross-process order is never used.
+Events are appended (one JSON line each, with pid and a per-process sequence number) to one
+file opened O_APPEND by every process: the file order is a linearisation that respects each
+process's own order and the causality induced by the queues (no wall-clock merging).
 """
 
 from __future__ import annotations
@@ -35,8 +36,13 @@ def log_event(ev, **fields):
         return
     _SEQ[0] += 1
     rec = {"pid": os.getpid(), "seq": _SEQ[0], "ev": ev, **fields}
-    with open(os.path.join(d, f"{os.getpid()}.ndjson"), "a") as f:
-        f.write(json.dumps(rec) + "\n")
+    # one file for all processes, O_APPEND: each write lands atomically at the end of the file,
+    # so the file order is a linearisation consistent with per-process order and causality
+    fd = os.open(os.path.join(d, "events.ndjson"), os.O_WRONLY | os.O_APPEND | os.O_CREAT, 0o644)
+    try:
+        os.write(fd, (json.dumps(rec) + "\n").encode())
+    finally:
+        os.close(fd)
 
 
 def _maybe_interrupt(site, chain, stage, k):
